@@ -151,7 +151,7 @@ impl ConnS {
 }
 
 /// OpenError with the variants open_inner produces (R11)
-pub enum OpenError { Io(IoErr), IllegalState, RemoteClosed, RemoteClosedWithError(AmqpError), TransportError(TransportError), Other }
+pub enum OpenError { Io(IoErr), IllegalState, NotImplemented(Option<String>), RemoteClosed, RemoteClosedWithError(AmqpError), TransportError(TransportError), Other }
 opaque!(IoErr);
 #[verifier::external_body]
 pub fn eof_io_error() -> (r: IoErr) { unimplemented!() }
@@ -181,6 +181,7 @@ impl ConnS {
     #[verifier::external_body]
     pub fn send_open(&mut self, writer: &mut TransportS) -> (r: Result<(), ConnectionStateError>)
         ensures
+            r is Err ==> !(r->Err_0 is RemoteClosed) && !(r->Err_0 is RemoteClosedWithError) && final(self).st == old(self).st,   // [C12.local-failure-is-not-a-remote-close] of unit CONN
             final(self).local_open == old(self).local_open,
             r is Ok ==> final(writer).sent@ == old(writer).sent@.push(Frame { channel: 0, body: FrameBody::Open(old(self).local_open) }) && final(writer).failures@ == old(writer).failures@,
             r is Ok ==> (match old(self).st {
@@ -224,7 +225,7 @@ impl ConnS {
     /// [C12.open-received] / [C17.channel-max.agreed] of unit CONN
     #[verifier::external_body]
     pub fn on_incoming_open(&mut self, channel: IncomingChannel, open: Open) -> (r: Result<(), ConnectionStateError>)
-        ensures final(self).local_open == old(self).local_open, match old(self).st {
+        ensures final(self).local_open == old(self).local_open, r is Err ==> !(r->Err_0 is RemoteClosed) && !(r->Err_0 is RemoteClosedWithError), match old(self).st {
             ConnectionState::HeaderExchange => r is Ok && final(self).st == ConnectionState::OpenReceived,
             ConnectionState::OpenSent => r is Ok && final(self).st == ConnectionState::Opened,
             ConnectionState::ClosePipe => r is Ok && final(self).st == ConnectionState::CloseSent,
@@ -377,12 +378,15 @@ impl ConnectionEngine {
 
 //@@ fn file=fe2o3-amqp/src/connection/engine.rs impl=`~impl<Io,C>ConnectionEngine<Io,C>whereIo:AsyncRead+AsyncWrite+std::fmt::Debug+SendBound+Unpin+'static,C:endpoint::Connection<State=ConnectionState>` name=on_incoming
 //@@ attr #[verifier::loop_isolation(false)]
+//@@ attr #[verifier::allow_complex_invariants]
 //@@ qmark
 //@@ subst `SessionFrame::new(channel, ` => `SessionFrame::new(channel.0, ` rule=R16
 //@@ spec
     ensures
         old(self).connection.st is Discarding && !(frame.body is Close) ==>
             r == Ok::<Running, ConnectionInnerError>(Running::Continue) && *final(self) == *old(self),                  // [C12.discarding.ignore] after closing with an error everything but the peer's Close is ignored: no state change, nothing sent, nothing forwarded
+        old(self).connection.st is CloseSent && !(frame.body is Close) ==>
+            r == Ok::<Running, ConnectionInnerError>(Running::Continue) && *final(self) == *old(self),                  // [C12.close-sent.in-flight-frames-ignored] after a local clean Close, frames of the peer that were still in flight are not acted on and are NOT an error: a clean close stays clean (only the peer's Close is interpreted)
         // peer-initiated close, transport still there
         frame.body is Close && (old(self).connection.st is Opened || old(self).connection.st is OpenPipe || old(self).connection.st is OpenClosePipe
             || old(self).connection.st is OpenReceived || old(self).connection.st is OpenSent)
@@ -395,17 +399,25 @@ impl ConnectionEngine {
             &&& final(self).outgoing_session_frames.queue@.len() == 0
             &&& r == Err::<Running, ConnectionInnerError>(state_err_to_inner(match frame.body->Close_0.error { Some(e) => ConnectionStateError::RemoteClosedWithError(e), None => ConnectionStateError::RemoteClosed }))   // [C12.peer-close-error] the peer's error (or RemoteClosed) is what is reported
         }),
+        frame.body is Close && (old(self).connection.st is Opened || old(self).connection.st is OpenPipe || old(self).connection.st is OpenClosePipe
+            || old(self).connection.st is OpenReceived || old(self).connection.st is OpenSent) ==>
+            r == Err::<Running, ConnectionInnerError>(state_err_to_inner(match frame.body->Close_0.error { Some(e) => ConnectionStateError::RemoteClosedWithError(e), None => ConnectionStateError::RemoteClosed })),   // [C12.peer-close-error-survives-failed-answer] the reason of the peer's close is what is reported even when the answering Close (or the flush before it) cannot be written any more (peer closed and dropped the socket)
         frame.body is Close && (old(self).connection.st is CloseSent || old(self).connection.st is Discarding) ==>
             final(self).connection.st is End && final(self).transport.sent@ == old(self).transport.sent@
             && (frame.body->Close_0.error is None ==> r == Ok::<Running, ConnectionInnerError>(Running::Stop)),         // [C12.close-completed] the peer's answer to our close ends the connection: nothing more is written
         !(frame.body is Open) && !(frame.body is Close) ==> final(self).heartbeat == old(self).heartbeat,                                         // [C17.heartbeat.not-postponed-by-incoming] receiving frames never re-arms or postpones the heartbeat: the peer's idle time-out is about what WE send
-        frame.body is Open && r is Ok && !(old(self).connection.st is Discarding) ==> heartbeat_ok(final(self).heartbeat.period_ms, frame.body->Open_0.idle_time_out),   // [C17.heartbeat.from-peer-open] heartbeats are armed from the peer's idle-time-out; 0 or unset means none [C15.open.zero-idle-timeout] (and never a zero period, which would panic the timer)
+        frame.body is Open && r is Ok && !(old(self).connection.st is Discarding || old(self).connection.st is CloseSent) ==> heartbeat_ok(final(self).heartbeat.period_ms, frame.body->Open_0.idle_time_out),   // [C17.heartbeat.from-peer-open] heartbeats are armed from the peer's idle-time-out; 0 or unset means none [C15.open.zero-idle-timeout] (and never a zero period, which would panic the timer)
 //@@ loop 0
+        invariant_except_break
+            answer is Ok,
         invariant
             self.outgoing_session_frames.closed@,
             self.connection.st is CloseReceived,
             extended_without_close(old(self).transport.sent@, self.transport.sent@),
             self.transport.failures@ >= old(self).transport.failures@,
+        ensures
+            answer is Ok ==> self.outgoing_session_frames.queue@.len() == 0,
+            answer is Err ==> self.transport.failures@ > old(self).transport.failures@,
         decreases self.outgoing_session_frames.queue@.len(),
 //@@ loopstart 0
                         let ghost sl = self.transport.sent@;
@@ -435,6 +447,7 @@ impl ConnectionEngine {
         close_already_sent(old(self).connection.st) && (old(self).connection.st is Discarding || old(self).connection.st is End) ==> final(self).transport.sent@ == old(self).transport.sent@,   // [C12.close-at-most-once] closing the connection when a close has already gone out (after an error close: DISCARDING) writes nothing more
         (old(self).connection.st is Start || old(self).connection.st is HeaderReceived || old(self).connection.st is HeaderSent || old(self).connection.st is HeaderExchange)
             ==> r is Err && final(self).transport.sent@ == old(self).transport.sent@,                                                                                                      // [C12.no-close-before-open] no close before the open exchange has begun
+        old(self).connection.st is CloseReceived && r is Err ==> final(self).transport.failures@ > old(self).transport.failures@,
         old(self).connection.st is CloseReceived && r is Ok ==> final(self).transport.sent@ == old(self).transport.sent@.push(close_frame(error)) && final(self).connection.st is End,       // [C12.peer-close-answered] a close received from the peer is answered with exactly one close
         r is Ok ==> r->Ok_0 is Stop,
 //@@ end
@@ -449,8 +462,9 @@ impl ConnectionEngine {
     ensures
         *error is TransportError ==> r == Ok::<Running, ConnectionInnerError>(Running::Stop) && final(self).transport.sent@ == old(self).transport.sent@,   // [C12.transport-gone] with the transport gone nothing is written any more
         close_already_sent(old(self).connection.st) && (old(self).connection.st is Discarding || old(self).connection.st is End) ==> final(self).transport.sent@ == old(self).transport.sent@,   // [C12.close-at-most-once]
-        (*error is RemoteClosed || *error is RemoteClosedWithError) && old(self).connection.st is CloseReceived && r is Ok
+        (*error is RemoteClosed || *error is RemoteClosedWithError) && old(self).connection.st is CloseReceived && final(self).transport.failures@ == old(self).transport.failures@
             ==> final(self).transport.sent@ == old(self).transport.sent@.push(close_frame(None)),                  // [C12.peer-close-answered] the answer to the peer's close carries no error of our own
+        (*error is RemoteClosed || *error is RemoteClosedWithError) ==> r == Ok::<Running, ConnectionInnerError>(Running::Stop),       // [C12.peer-close-error-survives-failed-answer] handling the peer's close never fails: a failure to write the answer must not replace the peer's reason in the handle's result (event_loop reports on_error's own error if it returns one)
         r is Ok ==> r->Ok_0 is Stop,
 //@@ end
 
@@ -463,7 +477,8 @@ impl ConnectionEngine {
 //@@ spec
     ensures
         control is Close && close_already_sent(old(self).connection.st) ==> extended_without_close(old(self).transport.sent@, final(self).transport.sent@),                                 // [C12.close-at-most-once] a close request from the handle after a close has already been sent (try_close polled again, close after close_with_error) puts no second Close on the wire
-        control is Close && r is Ok ==> ({
+        control is Close && close_already_sent(old(self).connection.st) ==> r is Ok && final(self).transport.sent@ == old(self).transport.sent@ && final(self).connection.st == old(self).connection.st,   // [C12.repeated-close-request-ignored] a further close request after the local Close went out (try_close polled again, close() retried after a timeout) is ignored: it is not an error that would turn the result of a clean close into IllegalState
+        control is Close && !close_already_sent(old(self).connection.st) && r is Ok ==> ({
             let s0 = old(self).transport.sent@; let s1 = final(self).transport.sent@;
             &&& s1.len() > s0.len() && s1.last() == close_frame(control->Close_0)                                    // [C12.close-frame] a locally requested close sends the Close with the caller's error ...
             &&& extended_without_close(s0, s1.drop_last())                                                           // [C12.flush-before-close] ... after flushing what the sessions had already queued, and as the last frame
@@ -503,9 +518,44 @@ impl ConnectionEngine {
             &&& final(self).transport.dec_max@ == old(self).connection.local_open.max_frame_size.0 as int                                                         // ... what we accept by OUR OWN advertised one
             &&& heartbeat_ok(final(self).heartbeat.period_ms, rc.last().body->Open_0.idle_time_out)   // [C17.heartbeat.from-peer-open]
         }),
+        (r is Err && (r->Err_0 is RemoteClosed || r->Err_0 is RemoteClosedWithError)) ==> final(self).connection.st is CloseReceived,   // [C12.close-before-open-recorded] a Close the peer sends instead of its Open (the open is refused) is taken in like any other close of the peer: the state records it (CLOSE-RCVD), so that it is answered once and no second Close is waited for
+        final(self).transport.recv@.len() == old(self).transport.recv@.len() + 1 && final(self).transport.recv@.last().body is Close && final(self).transport.sent@.len() == 1 ==> ({
+            let c = final(self).transport.recv@.last().body->Close_0;
+            r == Err::<(), OpenError>(match c.error { Some(e) => OpenError::RemoteClosedWithError(e), None => OpenError::RemoteClosed })                            // [C12.refused-open-reports-peer-error] the peer's error is what the opening side is told
+        }),
+        final(self).transport.recv@.len() == old(self).transport.recv@.len() + 1 && !(final(self).transport.recv@.last().body is Close) && !(final(self).transport.recv@.last().body is Open)
+            && final(self).transport.sent@.len() == 1 ==> r is Err && (r->Err_0 is IllegalState || r->Err_0 is NotImplemented),                                   // [C12.frame-before-open-is-illegal] any other frame before the peer's Open is an illegal-state error (which `open` must turn into a Close carrying an error)
         r is Ok ==> final(self).heartbeat.period_ms is Some ==> final(self).heartbeat.period_ms->Some_0 > 0,                                                          // [C15.open.zero-idle-timeout] never a zero heartbeat period
 //@@ end
+
+    /// `engine.close_connection(error)` as called by `open` after open_inner failed with `cause`: the real close_connection (contract above), plus what C12 asks of this call site
+    fn close_connection_after_failed_open(&mut self, cause: &OpenError, error: Option<AmqpError>) -> (r: Result<Running, ConnectionInnerError>)
+        requires
+            (*cause is IllegalState || *cause is NotImplemented) ==> error is Some,                                    // [C12.illegal-frame-before-open-closes-with-error] a frame that is illegal before the peer's Open closes the connection WITH an error (amqp:illegal-state / not-implemented), not with an error-free Close the peer would take for a clean shutdown
+            (*cause is RemoteClosed || *cause is RemoteClosedWithError) ==> old(self).connection.st is CloseReceived,    // [C12.close-before-open-recorded] the peer's Close has been recorded, so this call answers it once and returns (it does not wait for a second Close)
+        ensures
+            old(self).connection.st is CloseReceived && r is Ok ==> final(self).transport.sent@ == old(self).transport.sent@.push(close_frame(error)) && final(self).connection.st is End,
+            old(self).connection.st is CloseReceived && r is Err ==> final(self).transport.failures@ > old(self).transport.failures@,
+    { self.close_connection(error) }
+
+//@@ fn file=fe2o3-amqp/src/connection/engine.rs impl=`~impl<Io,C>ConnectionEngine<Io,C>whereIo:AsyncRead+AsyncWrite+std::fmt::Debug+SendBound+Unpin+'static,C:endpoint::Connection<State=ConnectionState>` name=open
+//@@ param transport : TransportS
+//@@ param connection : ConnS
+//@@ param control : ConnCtlRx
+//@@ param outgoing_session_frames : ChanReceiver<SessionFrame>
+//@@ ret Result<ConnectionEngine, OpenError>
+//@@ subst `engine.close_connection(__E1)` => `engine.close_connection_after_failed_open(&error, __E1)` rule=R9
+//@@ subst `Some(String::from( "Pipelined open is not implemented", ))` => `Some(str_pipelined())` rule=R9
+//@@ subst `definitions::Error::new( AmqpError::IllegalState, None, None, )` => `amqp_error_of(1, None)` rule=optional-R11
+//@@ subst `definitions::Error::new( AmqpError::NotImplemented, description.clone(), None, )` => `amqp_error_of(2, description.clone())` rule=optional-R11
+//@@ spec
+    requires transport.sent@.len() == 0,
+    ensures
+        r is Ok ==> r->Ok_0.transport.sent@.len() == 1 && r->Ok_0.transport.recv@.len() == transport.recv@.len() + 1 && r->Ok_0.transport.recv@.last().body is Open,   // [C12.open-exchange] the engine is handed out only after the Open exchange
+//@@ end
 }
+#[verifier::external_body]
+pub fn str_pipelined() -> (r: String) { unimplemented!() }
 
 } // verus!
 fn main() {}
